@@ -408,12 +408,10 @@ def build(tier):
     cpp_tables = [rel for _, rel in enums.enum_headers()[1]]
     targets += enums.targets(tier)
     # parameter_t::operator=(tenum) / value<tenum>() for EVERY enumeration with a table (instantiated by the generated driver)
-    for k, q in enumerate(enums.quick_enums(tier)):
-        # operator=(tenum) drags the whole string assignment along (2000 obligations): the quick tier checks the first instantiation
-        # (one template body, the instantiations differ in T only), the thorough tier every instantiation; value<tenum>() always all
-        targets += [t for t in enum_param_targets(q, enums) if tier == 'thorough' or k == 0 or not t.name.endswith(('_assign', '_make'))]
+    for q in enums.quick_enums(tier):      # quick tier: the one representative table; thorough tier: every table
+        targets += enum_param_targets(q, enums)
     import clones
-    targets += clones.targets()
+    targets += clones.targets(tier)
     import factory
     targets += factory.targets(tier)
     return {
@@ -443,19 +441,19 @@ def build(tier):
             'constructor and assignment, gboost_model_t::prototypes(const&): the copy has the same id and equal parameters, EVERY owned '
             'sub-object is an independent clone (same id, equal parameters, another object) of the source\'s, the source is untouched; '
             'setters by id install the factory default of that id, an unknown id / null owner throws and nothing changes',
-            'enumeration tables: EVERY enum_string<T>() specialisation defined in a header of the library is found through clang (quick tier: the '
-            'tables of the enumerations some make_enum call site registers as a parameter; thorough tier: all), its (enumerator, name) list and the '
+            'enumeration tables: EVERY enum_string<T>() specialisation defined in a header of the library is found through clang (quick tier: ONE '
+            'representative table, wlearner_criterion with its aic / aicc prefix pair; thorough tier: all), its (enumerator, name) list and the '
             'enumerator values are read from the AST, and per table, on the REAL template instantiations: from_string<T>(s) for EVERY string s '
             '(unbounded length) returns the first entry whose name equals s, else the first entry whose name is a prefix of s, else throws; '
             'from_string(name_k) == value_k for EVERY k (fails exactly when a name is listed twice, or -- with the exact pass removed -- when an '
             'earlier name is a proper prefix: aic / aicc); detail::scat<T>(stream, v) appends the name of the first entry listing v, a value the '
             'table does not list throws and appends nothing; no name and no value is listed twice (bijection); from_string(scat(e)) == e',
-            'parameter_t::value<T>() for every such T: from_string<T>(stored string) for an enumeration parameter (by the table contract), any other '
-            'kind throws, nothing is modified; parameter_t::operator=(T) (quick tier: first instantiation and nano::solver_status, thorough: all): '
+            'parameter_t::value<T>() for every T of the tier: from_string<T>(stored string) for an enumeration parameter (by the table contract), any other '
+            'kind throws, nothing is modified; parameter_t::operator=(T): '
             'a value OUTSIDE the table throws before anything is assigned, otherwise scat(value) goes through operator=(string) (by its contract), '
-            'every other kind throws and nothing changes; parameter_t::make_enum_<T> (same tiering): for ANY table the constructed parameter '
+            'every other kind throws and nothing changes; parameter_t::make_enum_<T>: for ANY table the constructed parameter '
             'holds enum_t{scat(value), domain} with the domain list == the table names, position by position (real constructor and ::update inlined)',
-            'EVERY clone() definition of the library (about 120: found by clang in generated unity translation units of the directories of src/ and '
+            'EVERY clone() definition of the library (about 135; quick tier: the directories src/loss, src/lsearch0, src/splitter, thorough tier: all; found by clang in generated unity translation units of the directories of src/ and '
             'in the headers, class-template instantiations through the factory files): T::clone() returns a NEW object of the dynamic type T whose '
             'complete member state (every data member, bases and parameters included) is a copy of *this, *this untouched -- '
             'make_unique<T>() / make_unique<other>(..) / a missing *this are refuted; out-of-line clone() of class templates through the explicit '
